@@ -27,6 +27,10 @@ TIMEOUT = {"quick": 1500, "thorough": 5 * 3600}
 MIN_FIRED_PER_RULE = 5
 
 
+import functools
+
+
+@functools.lru_cache(maxsize=1)
 def rule_units():
     """{export name: RewriteRuleSet} for every exported rule / rule set, taken from the packages at run time."""
     import onnxscript.rewriter.rules.common as C
